@@ -2,7 +2,9 @@ import StraxModel.Lemmas.ChunkAlgSplit
 import StraxModel.Lemmas.ChunkAlgChunk
 import StraxModel.Lemmas.ChunkAlgRechunk
 import StraxModel.Lemmas.RunOrder
+import StraxModel.Lemmas.SuperrunBad
 import StraxModel.Lemmas.ChunkAlgRuns
+import StraxModel.Lemmas.ChunkAlgPartial
 import StraxModel.Lemmas.ChunkAlgShift
 /-
   Helper lemmas for property C07 (laws of chunking).  Core Lean only.
